@@ -1212,7 +1212,7 @@ SAMPLES = {
         S('rd', 'rd 1:2:3 label 3', **VPN), S('rd', 'rd 1.2.3.4.5:6 label 3', **VPN),
         Sample('prefix', 'route 10.0.0.1/24 next-hop 1.2.3.4', 'refuse'), Sample('prefix', 'route 256.0.0.0/8 next-hop 1.2.3.4'),
         Sample('prefix', 'route 10.0.0.0 next-hop 1.2.3.4', 'accept', w_mask4, [32]), Sample('prefix', 'route 10.0.0.0/24/5 next-hop 1.2.3.4'),
-        Sample('prefix', 'route 10.0.0.0/ next-hop 1.2.3.4'), Sample('prefix', 'route /24 next-hop 1.2.3.4', 'refuse'), Sample('prefix', 'route next-hop 1.2.3.4'),
+        Sample('prefix', 'route 10.0.0.0/ next-hop 1.2.3.4', 'refuse'), Sample('prefix', 'route 10.0.0.0/2x next-hop 1.2.3.4', 'refuse'), Sample('prefix', 'route /24 next-hop 1.2.3.4', 'refuse'), Sample('prefix', 'route next-hop 1.2.3.4'),
         Sample('prefix', 'route 10.0.0/24 next-hop 1.2.3.4'), Sample('prefix', 'route 10.0.0.0/24', 'refuse'),
     ],
     'lexical/flow': [
@@ -1223,7 +1223,9 @@ SAMPLES = {
         FS('rate-limit', 'source 10.0.0.0/24 ;', 'rate-limit 9600 packets ;', 'accept', w_rate(0x0c), [9600]), FS('rate-limit', 'source 10.0.0.0/24 ;', 'rate-limit x ;'),
         FS('rate-limit', 'source 10.0.0.0/24 ;', 'rate-limit ;'),
         FS('source', 'source 10.0.0.0/33 ;', 'discard ;'), FS('source', 'source 10.0.0.1/24 ;', 'discard ;'), FS('source', 'source 256.0.0.0/8 ;', 'discard ;'),
-        FS('source', 'source 10.0.0.0 ;', 'discard ;'), FS('source', 'source 10.0.0/24 ;', 'discard ;'),
+        FS('source', 'source 10.0.0.0 ;', 'discard ;'), FS('source', 'source 10.0.0/24 ; destination-port =80 ;', 'discard ;', 'refuse'),
+        # a source the grammar does not recognise is refused, never left out of the rule (the rest would be a BROADER rule)
+        FS('source', 'source 2001:db8::1 ; destination-port =80 ;', 'discard ;', 'refuse'), FS('destination', 'destination 10.0.0/8 ; protocol tcp ;', 'discard ;', 'refuse'),
         FS('protocol', 'source 10.0.0.0/24 ; protocol tcp ;', 'discard ;', 'accept', w_flow_numeric(3, [(0, EQ)]), [6]), FS('protocol', 'protocol bogus ;', 'discard ;', 'refuse'),
         FS('protocol', 'protocol [ tcp udp ] ;', 'discard ;', 'accept', w_flow_numeric(3, [(0, EQ), (0, EQ)]), [6, 17]),
         FS('destination-port', 'destination-port =80& ;', 'discard ;', None, w_flow_numeric(5, [(0, EQ)]), [80]), FS('destination-port', 'destination-port >=1024&<=2048 ;', 'discard ;', 'accept',
@@ -1265,6 +1267,10 @@ SAMPLES['lexical/announce-family'] = [
     AN('path-information', 'path-information 1.2.3.4', 'accept', w_pid_bytes, [1, 2, 3, 4], shapes=[(True, True, True), (False, False, False)]),
     AN('as-path', 'as-path [ 1.1 ]', 'accept', w_aspath_flat, [65537]), AN('bogus', 'bogus 5', 'refuse'), AN('med', 'med', 'refuse'), AN('med', 'med 007', 'accept', w_med, [7]),
     Sample('prefix', 'unicast 10.0.0.1/24 next-hop 1.2.3.4', 'refuse', section='ipv4', api=None, in_file=False),
+    # the family of the command and the family of the prefix: `announce ipv4 unicast <ipv6 prefix>` cannot be sent as written
+    Sample('prefix', 'unicast 2001:db8::/32 next-hop 192.0.2.1', 'refuse', section='ipv4', api=None, in_file=False),
+    Sample('prefix', 'unicast 2001:db8::/64 next-hop 192.0.2.1', 'refuse', section='ipv4', api=None, in_file=False),
+    Sample('prefix', 'unicast 10.0.0.0/abc next-hop 1.2.3.4', 'refuse', section='ipv4', api=None, in_file=False),
     Sample('prefix', 'unicast 256.0.0.0/8 next-hop 1.2.3.4', 'refuse', section='ipv4', api=None, in_file=False),
     Sample('prefix', 'unicast 10.0.0.0/24 next-hop 256.1.1.1', 'refuse', section='ipv4', api=None, in_file=False),
 ]
